@@ -126,11 +126,20 @@ func (c *Case) HashAdd(parts ...any) {
 	c.hasher = h.Sum(nil)
 }
 
-func (c *Case) Nontrivial()            { c.mu.Lock(); c.res.Nontrivial = true; c.mu.Unlock() }
-func (c *Case) SetUnits(n, dnt int64)  { c.mu.Lock(); c.res.Units = n; c.res.DistinctNT = dnt; c.mu.Unlock() }
-func (c *Case) Inconclusive(s string)  { c.mu.Lock(); c.res.Inconclusive = s; c.mu.Unlock() }
-func (c *Case) Sample(v any)           { c.mu.Lock(); c.res.Sample = v; c.mu.Unlock() }
-func (c *Case) IsInconclusive() bool   { c.mu.Lock(); defer c.mu.Unlock(); return c.res.Inconclusive != "" }
+func (c *Case) Nontrivial() { c.mu.Lock(); c.res.Nontrivial = true; c.mu.Unlock() }
+func (c *Case) SetUnits(n, dnt int64) {
+	c.mu.Lock()
+	c.res.Units = n
+	c.res.DistinctNT = dnt
+	c.mu.Unlock()
+}
+func (c *Case) Inconclusive(s string) { c.mu.Lock(); c.res.Inconclusive = s; c.mu.Unlock() }
+func (c *Case) Sample(v any)          { c.mu.Lock(); c.res.Sample = v; c.mu.Unlock() }
+func (c *Case) IsInconclusive() bool {
+	c.mu.Lock()
+	defer c.mu.Unlock()
+	return c.res.Inconclusive != ""
+}
 
 // DiskDir returns a scratch directory on a real file system (for O_DIRECT); removed after the case.
 func (c *Case) DiskDir() string {
@@ -174,7 +183,7 @@ type Prop struct {
 
 var registry = map[string]*Prop{}
 
-func Register(p *Prop) { registry[p.ID] = p }
+func Register(p *Prop)       { registry[p.ID] = p }
 func Lookup(id string) *Prop { return registry[id] }
 func IDs() []string {
 	var s []string
@@ -284,7 +293,7 @@ var subs = map[string]func(args []string) int{}
 
 // RegisterSub registers a raw worker sub-command of vchild (traced sessions, recovery runs, race workloads).
 func RegisterSub(name string, f func(args []string) int) { subs[name] = f }
-func LookupSub(name string) func(args []string) int     { return subs[name] }
+func LookupSub(name string) func(args []string) int      { return subs[name] }
 
 // Self returns the path of the running child binary and of its -race sibling (if built).
 func Self() string { p, _ := os.Executable(); return p }
